@@ -6,4 +6,11 @@ import Ypv.Props.C02
 #print axioms Ypv.C02.required_coords_chain
 #print axioms Ypv.C02.kids_coords_chain
 #print axioms Ypv.C02.coords_reresolve
-#print axioms Ypv.C02.path_reresolves_partial
+#print axioms Ypv.C02.canonical_path_reresolves
+#print axioms Ypv.C02.results_pathed
+#print axioms Ypv.C02.path_reresolves
+#print axioms Ypv.C02.path_reresolves_as
+#print axioms Ypv.C02.path_reresolves_query
+#print axioms Ypv.Acc.parseWith_texts_join
+#print axioms Ypv.Acc.accObj_eq
+#print axioms Ypv.Acc.escSection_real
